@@ -56,6 +56,16 @@ CHECKS = {
         "note": "the parser-level recursion/token-limit statements and the compiler's reached counters are outside the claim "
                 "(multi-token parser input and DiagnosticList are out of reach).",
     },
+    "C06": {
+        "engine": "kani",
+        "technique": "bounded model checking (Kani/CBMC) of unescape_string against the spec's StringValue semantics; validity of the body decided by the reference lexer",
+        "text": "quoted strings only: for every lexically valid body of the form prefix ++ [b] (117 enumerated prefixes: every string of "
+                "length <= 2 over `a \\ \" n u 0 / t space`, unicode-escape prefixes around the 1/2/3-byte and surrogate boundaries, a "
+                "few longer ones; b = every ASCII SourceCharacter) unescape_string does not panic and returns the spec value.",
+        "design_ref": "DESIGN.md section 4, C06",
+        "note": "block strings (BlockStringValue) are outside: unescape_block_string goes through the memchr crate and symbolic-length line "
+                "splitting; two or more symbolic bytes do not finish (measured); the compiler-side storage of the values is outside.",
+    },
     "C10": {
         "engine": "kani",
         "technique": "bounded model checking (Kani/CBMC) against byte-level reference grammars",
@@ -105,7 +115,6 @@ _P = "needs multi-token symbolic parser input: the lexer state machine costs ~10
 NOT_APPLICABLE = {
     "C02": "the lossless property is a statement about the parser's tree; measured: one symbolic input byte, a symbolic token limit or a symbolic recursion limit each exceed 15 min in the parser even with rowan stubbed; " + _P,
     "C05": "every grammar production needs >= 3 tokens of symbolic input; " + _P,
-    "C06": "check not built yet in this commit (planned: unescape kernels on <= 4 bytes)",
     "C07": "needs parse_type / parse_selection_set on symbolic suffixes; measured: no symbolic dimension survives the parser (see C01/C02); " + _P,
     "C08": "parser + fmt pretty-printer + parser again; " + _P,
     "C09": "serialize_string_value writes through core::fmt::Formatter and the way back goes through the lexer; " + _P,
